@@ -612,8 +612,8 @@ def make_desc(draw):
             kw['version'] = draw(st.sampled_from([1, 2, 3, 4] if fn != 'make_micro' else ['M3', 'M4']))
         if fn == 'make' and draw(st.integers(0, 9)) < 4:
             kw['micro'] = draw(st.sampled_from([None, True, False]))
-    if draw(st.integers(0, 9)) < 3:
-        kw['error'] = draw(st.sampled_from(['L', 'M', 'Q']))
+    if draw(st.integers(0, 9)) < 4:
+        kw['error'] = draw(st.sampled_from(['L', 'M', 'Q', 'H'] if fn in ('make_qr', 'make_sequence') else ['L', 'M', 'Q']))
     if draw(st.integers(0, 9)) < 3:
         kw['mask'] = draw(st.integers(0, 3))
     if draw(st.integers(0, 9)) < 2:
@@ -716,6 +716,27 @@ class History(RuleBasedStateMachine):
     def reencode(self, data):
         creator = data.draw(st.sampled_from(self.makes))
         self._do({'op': 'reencode', 'slot': self.makes.index(creator), 'creator': creator, 'index': 0})
+
+    @precondition(lambda self: self.makes)
+    @rule(data=st.data())
+    def related(self, data):
+        """A call whose internal sub-problem equals the one of an earlier call: the same text as one
+        chunk of a Structured Append sequence (or one chunk of an earlier sequence as a symbol of its
+        own), same level - anything memoised on too small a key is hit."""
+        creator = data.draw(st.sampled_from(self.makes))
+        desc = self.ops[creator]
+        content = dec_content(desc['content'])
+        if not isinstance(content, str) or not content:
+            return
+        kw = {k: v for k, v in desc['kw'].items() if k in ('error', 'mask', 'boost_error', 'encoding')}
+        if desc['fn'] == 'make_sequence':
+            k = desc['kw'].get('symbol_count') or 2
+            new = {'op': 'make', 'fn': 'make_qr', 'content': enc_content(content[:max(1, len(content) // k)]), 'kw': kw}
+        else:
+            k = data.draw(st.integers(2, 3))
+            new = {'op': 'make', 'fn': 'make_sequence', 'content': enc_content(content * k), 'kw': dict(kw, symbol_count=k)}
+        self.makes.append(len(self.ops))
+        self._do(new)
 
     @rule(parts=st.lists(SMALL_TEXT, min_size=2, max_size=3), kw=st.sampled_from([{}, {'micro': False}, {'error': 'M'}]))
     def same_object(self, parts, kw):
